@@ -25,6 +25,7 @@ import (
 	"github.com/openbao/openbao/v2/internal/helper/namespace"
 	"github.com/openbao/openbao/v2/internal/vault/barrier"
 	"github.com/openbao/openbao/v2/internal/vault/policy"
+	"github.com/openbao/openbao/v2/internal/vault/routing"
 )
 
 // Namespace id length; upstream uses 5 characters so we use one more to
@@ -1431,6 +1432,22 @@ func (ns *NamespaceStore) clearNamespaceResources(nsCtx context.Context, entry *
 	if err != nil {
 		return fmt.Errorf("failed to retrieve namespace secret mounts: %w", err)
 	}
+
+	// Unmount the namespace's own sys/ mount last: its storage view holds the
+	// leases of the namespace, which are needed to revoke the secrets of the
+	// other mounts while those are unmounted.
+	isSysMount := func(me *routing.MountEntry) bool {
+		return me.Type == routing.MountTypeSystem || me.Type == routing.MountTypeNSSystem
+	}
+	slices.SortStableFunc(mountEntries, func(a, b *routing.MountEntry) int {
+		switch {
+		case isSysMount(a) && !isSysMount(b):
+			return 1
+		case !isSysMount(a) && isSysMount(b):
+			return -1
+		}
+		return 0
+	})
 
 	for _, me := range mountEntries {
 		err := ns.core.unmountInternal(nsCtx, me.Path, updateStorage)
